@@ -620,10 +620,45 @@ pub fn run_check(property: &str, tier: &str, part: Option<&str>, worker: bool) -
     } else {
         None
     };
+    // SHAPES: program constants as a solver dimension (C01: plain IR semantics; C02: the
+    // at-least-once flag honoured, as the bytecode generator does)
+    let shapes_handle = if (property == "C01" || (property == "C02" && cfg!(debug_assertions))) && std::env::var("SYMX_ONLY_FAMILY").is_err() {
+        let honour = property == "C02";
+        let sd = seed();
+        let secs = if thorough_tier { 900 } else { 140 };
+        let mut progs: Vec<String> = Vec::new();
+        progs.extend(corpus::gen(sd, if thorough_tier { 300 } else { 100 }));
+        progs.extend(corpus::gen_struct(sd, if thorough_tier { 600 } else { 150 }));
+        progs.extend(corpus::gen_rand(sd, if thorough_tier { 3000 } else { 600 }));
+        progs.retain(|p| p.contains('[') && p.len() <= 160);
+        // interleave the families
+        let mut r = corpus::Rng::new(sd ^ 0x54A9E5);
+        for i in (1..progs.len()).rev() {
+            let j = r.below(i as u64 + 1) as usize;
+            progs.swap(i, j);
+        }
+        Some(std::thread::Builder::new().stack_size(1 << 28).spawn(move || crate::shapes::run(&progs, sd, secs, 4, honour)).unwrap())
+    } else {
+        None
+    };
     let res = run_plan(&plan);
     let mut candidates: Vec<Case> = Vec::new();
     for o in &res.outs {
         candidates.extend(o.candidates.iter().cloned());
+    }
+    let mut shapes_cov = Value::Null;
+    if let Some(h) = shapes_handle {
+        if let Ok(so) = h.join() {
+            shapes_cov = json!({
+                "shapes": so.shapes, "symbolic_constants": so.symbolic_constants, "paths": so.paths, "optimiser_runs_inside_the_exploration": so.optimiser_runs,
+                "event_log_comparisons": so.comparisons, "paths_truncated": so.truncated, "inconclusive": so.inconclusive.len(),
+                "inconclusive_samples": so.inconclusive.iter().take(4).collect::<Vec<_>>(),
+                "candidates": so.candidates.len(), "solver_queries": so.stats.queries,
+                "rule": "a corpus program is parsed by the real parser; up to 3 of its +/- run lengths / load constants become unconstrained solver variables; the real optimize(level) runs inside the exploration (its case splits fork on the solver); unoptimised vs optimised IR are executed by a small IR interpreter over terms and compared by the solver; counterexamples are printed back as Brainfuck text and replayed natively",
+                "samples": so.samples,
+            });
+            candidates.extend(so.candidates);
+        }
     }
     let n_candidates = candidates.len();
     let sum = settle(property, candidates, 60);
@@ -659,6 +694,9 @@ pub fn run_check(property: &str, tier: &str, part: Option<&str>, worker: bool) -
         "time_cap_per_program_and_width_s": plan.cfg.job_time_cap_s,
         "outside": "inputs driving the canonical run through more open decisions than the cap; programs whose canonical run exceeds the step cap at the given width; programs not in the corpus",
     });
+    if !shapes_cov.is_null() {
+        cov["shapes_symbolic_constants"] = shapes_cov;
+    }
     cov["candidates"] = json!(n_candidates);
     cov["candidates_not_reproduced_natively"] = json!(sum.not_reproduced.len());
     cov["known_findings_matched"] = json!(sum.known.iter().map(|(k, v)| json!({"id": k, "cases": v.0})).collect::<Vec<_>>());
